@@ -29,6 +29,37 @@ type C19Plan struct {
 	Planted   []Planted `json:"planted,omitempty"`
 	ViaReconf bool      `json:"via_reconfigure,omitempty"`
 	ReuseSeq  bool      `json:"reuse_seq,omitempty"` // obtain the iterator once and use the same iter.Seq value for every consumer
+	// the concurrent-consumers world (conc19.go; only drawn and executed by the
+	// schedule-controlled build, ./check C19 stage 1)
+	Conc *C19Conc `json:"conc,omitempty"`
+}
+
+// C19Conc: several consumer tasks traversing error values at the same time, one
+// runnable at any instant, the baton passed at planned schedule points.
+type C19Conc struct {
+	Trees    []TNode   `json:"trees,omitempty"`
+	Tasks    []C19Task `json:"tasks"`
+	Order    []int     `json:"order"`
+	Preempts []CPre    `json:"preempts"`
+	Sweep    bool      `json:"sweep,omitempty"`
+}
+type C19Task struct {
+	Ops []C19Op `json:"ops"`
+}
+type C19Op struct {
+	Kind    string    `json:"kind"`              // range | callback | pull | cfg
+	Tree    int       `json:"tree,omitempty"`    // which error value (range, callback, pull)
+	Shared  bool      `json:"shared,omitempty"`  // use the ONE iter.Seq value every task shares for that error value
+	Break   int       `json:"break"`             // consumer cancels at this yield; -1: never
+	Cfg     *Cfg      `json:"cfg,omitempty"`     // cfg: NewMiddleware(Cfg+Planted), then a full traversal of its error
+	Planted []Planted `json:"planted,omitempty"` //
+}
+type CPre struct {
+	Task  int `json:"task"`
+	Op    int `json:"op"`
+	Yield int `json:"yield"`
+	To    int `json:"to"`
+	Burst int `json:"burst"`
 }
 
 type c19 struct{}
@@ -38,27 +69,51 @@ func init() { register(c19{}) }
 func (c19) ID() string    { return "C19" }
 func (c19) Level() string { return "fault_enumeration" }
 func (c19) Rule() string {
+	if concBuild {
+		return c19ConcRule
+	}
 	return "one case = one seeded join tree (bushy: depth<=6, fan-out 1..5; or, 8% of the cases, a deep spine of 7..100 nested joins with the nested join at a random sibling position; joins of one, nested joins, distinct leaf pointers) or one real configuration error with 1..8 planted violations; trees may contain the same error value or sub-tree twice; per case EVERY cancellation position k in 0..n is enumerated for three consumers (range+break, raw callback returning false, iter.Pull+stop), in 40% of the cases on ONE reused iterator value, plus re-entrant nested ranges over the same iterator value; for library errors the yielded errors must match the lines of Error() one by one; distinct = distinct plan hash; non-trivial = at least 2 leaves and at least one join node (so that at least one cancellation lands between siblings)"
 }
 func (c19) Budget(tier string) (int, time.Duration) {
+	if concBuild {
+		if tier == "thorough" {
+			return 30_000_000, 6 * time.Minute
+		}
+		return 400_000, 20 * time.Second
+	}
 	if tier == "thorough" {
 		return 4_000_000, 10 * time.Minute
 	}
 	return 150_000, 40 * time.Second
 }
 func (c19) Assumptions() []string {
+	if concBuild {
+		return []string{
+			"the build is an AST-instrumented scratch copy of /repo's working tree (tools/instrument): a schedule point before every statement of cfgerrors and of the packages NewMiddleware runs through; exactly one consumer task is runnable at any time and the plan decides who",
+			"error values are immutable and each consumer owns its loop state, so every traversal must yield exactly what the independent flattening yields, whoever else is traversing; a data race that needs true parallelism is outside this world (the C07 race companion covers the Middleware, not cfgerrors)",
+		}
+	}
 	return []string{
 		"trees are built with errors.Join only (the documented domain of cfgerrors.All)",
 		"the independent flattening (explicit stack over Unwrap() []error) is the reference; leaves are compared by pointer identity",
 	}
 }
 func (c19) Parties() map[string]string {
+	if concBuild {
+		return map[string]string{"cfgerrors.All": "real (AST-instrumented scratch copy: a schedule point before every statement)", "cors.NewMiddleware (error producer)": "real (instrumented)", "errors.Join, iter.Pull": "real (stdlib)", "consumer tasks": "stub (simulator-owned goroutines, one runnable at a time, preempted at planned schedule points)"}
+	}
 	return map[string]string{"cfgerrors.All": "real", "cors.NewMiddleware/Reconfigure (error producer)": "real", "errors.Join": "real (stdlib)", "iterator consumer": "stub (simulator-owned, cancels at the planned yield)"}
 }
 func (c19) FaultKinds() []string {
+	if concBuild {
+		return []string{"F3_preemption_fired", "F8_cancel_under_concurrency"}
+	}
 	return []string{"F8_cancel_range_break", "F8_cancel_callback_false", "F8_cancel_pull_stop", "F8_reentrant_range_over_same_iterator", "F8_consumer_unwinds_by_panic"}
 }
 func (c19) Probes() []string {
+	if concBuild {
+		return []string{"two_traversals_suspended_at_once", "preempted_inside_cfgerrors", "shared_iterator_value_across_tasks", "pull_consumer_under_concurrency", "library_error_traversed_under_concurrency", "sweep_run"}
+	}
 	return []string{"cancel_at_first", "cancel_at_last", "cancel_between_siblings_of_nested_join", "join_of_one", "real_cfg_error_tree", "no_cancel_full_traversal", "real_cfg_error_count_checked", "same_error_value_twice_in_tree", "same_iterator_value_reused", "tree_deeper_than_16", "tree_deeper_than_64", "leaf_with_an_unwrap_method"}
 }
 
@@ -124,6 +179,9 @@ func treeDepth(t TNode) int {
 func (c19) Gen(r *R, tier string) any {
 	allowHugeOriginLists = false
 	observeUnknownAPI = false
+	if concBuild {
+		return genC19Conc(r, tier)
+	}
 	if r.P(0.08) {
 		id := 0
 		d := pick(r, []int{7, 8, 9, 15, 16, 17, 18, 31, 32, 33, 34, 63, 64, 65, 66, 100})
@@ -254,6 +312,9 @@ func sameErrs(a, b []error) bool {
 func (c19) Exec(plan any, c *Ctx) *Violation {
 	observeUnknownAPI = false
 	p := plan.(*C19Plan)
+	if p.Conc != nil {
+		return execC19Conc(p, c)
+	}
 	var err error
 	joins, joinOfOne := 0, false
 	if p.Tree != nil {
@@ -561,6 +622,9 @@ func catch(f func()) (pan string) {
 
 func (c19) Shrink(plan any) []any {
 	p := plan.(*C19Plan)
+	if p.Conc != nil {
+		return shrinkC19Conc(p)
+	}
 	var out []any
 	if p.Tree == nil {
 		for i := range p.Planted {
